@@ -71,6 +71,20 @@ def check(case, rec):
         gv = gv.reshape(exp_v.shape)
         gm = None if gm is None else gm.reshape(exp_m.shape)
     Q.compare("ccube.count[%s]" % case["shape_mode"], gv, gm, exp_v, exp_m)
+    if nd and N >= 2 and not case.get("recipe"):
+        # one count-function object serves the cube and then a cube over the first half of the rows (a filtered subset)
+        from catii import ffuncs
+
+        half = [a[: N // 2] for a in dense]
+        hv, hm, _ = Q.oracle(half, full, "count", N // 2, w=numpy.ones(N // 2), wvalid=numpy.ones(N // 2, dtype=bool))
+        with libcall("one ffunc_count object on a cube and on a cube over the first half of its rows"):
+            fobj = ffuncs.ffunc_count(None, None, False, Q.rma_arg(["tuple", 0]))
+            cube.calculate([fobj])
+            commons = [d["common"] for d in case["dims"]]
+            small = type(cube)([Q.build_index(a, c) for a, c in zip(half, commons)], tuple(full))
+            res_h = small.calculate([fobj])[0]
+        gv2, gm2 = Q.normalise(res_h, ["tuple", 0], "ccube.count (re-used function object)")
+        Q.compare("ccube.count[function object re-used on %d of %d rows]" % (N // 2, N), gv2, gm2, hv, hm)
     if case.get("poolsize") and getattr(cube, "scaffold_size", 0) > 2:
         with libcall("ccube.count with the worker pool on (poolsize %d)" % case["poolsize"]):
             pooled, _ = Q.make_ccube(case, dense)
